@@ -685,7 +685,8 @@ Qed.
 
 Lemma fault_stop_closes_channels : forall s, fault_stop_ok (fault_obs s) = true.
 Proof.
-  intro s. unfold fault_stop_ok, fault_obs, stop_under_fault; cbn [fo_writers fo_open fo_stored set_chans chans].
+  intro s. unfold fault_stop_ok, fault_obs, stop_under_fault;
+    cbn [fo_writers fo_open fo_stored fo_active set_chans set_rs chans rs ws_stop active negb].
   rewrite writers_remove_all. cbn [andb Z.eqb].
   assert (H : existsb stores_any (map remove_all (chans s)) = false).
   { induction (chans s) as [|c t IH]; cbn [map existsb]; auto. rewrite IH.
